@@ -287,8 +287,10 @@ def run_cases(exe, cases, env=None, timeout=600, per_case_restart=True, extra_ar
         if lines and lines[-1] == "":
             lines.pop()
         complete = lines
-        # a partial last line (no newline) is dropped
+        # a partial last line (no newline) belongs to the case the process died on
+        partial = ""
         if out and not out.endswith("\n") and complete:
+            partial = complete[-1]
             complete = complete[:-1]
         got = len(complete)
         results.extend(complete[: n - i])
@@ -305,7 +307,7 @@ def run_cases(exe, cases, env=None, timeout=600, per_case_restart=True, extra_ar
         if not why:
             tail = [l for l in (out[-300:] + "\n" + err[-300:]).splitlines() if l.strip()]
             why = tail[-1].strip() if tail else ""
-        results.append("DIED rc=%d %s" % (rc, why[:200]))
+        results.append("DIED rc=%d %s%s" % (rc, why[:200], (" | " + partial[:300]) if partial else ""))
         i += 1
         deaths += 1
         if not per_case_restart or deaths > max_deaths:
